@@ -180,6 +180,12 @@ where
         self.pool.len()
     }
 
+    /// Verification hook: the free intervals `(low, high)` in pool order.
+    #[cfg(mqtt_protocol_core_verif)]
+    pub fn verif_intervals(&self) -> alloc::vec::Vec<(T, T)> {
+        self.pool.iter().map(|iv| (iv.low, iv.high)).collect()
+    }
+
     pub fn dump(&self) {
         for _iv in &self.pool {
             crate::mqtt::common::tracing::debug!("{_iv:?}");
